@@ -382,7 +382,7 @@ class C14(PropCheck):
     id = 'C14'
     extractors = (margin_boxes.generate, page_sizes.generate)
     modules = ('WpModel.Props.C14', 'WpModel.Props.C14Strings', 'WpModel.Props.C14Variable', 'WpModel.Props.C14Groups',
-               'WpModel.Props.C14Parse', 'WpModel.Props.C14Percent', 'WpModel.Props.C14Sheet', 'WpModel.Props.C14Exact', 'WpModel.Props.C14Doc', 'WpModel.Props.C14Marks',
+               'WpModel.Props.C14Parse', 'WpModel.Props.C14Percent', 'WpModel.Props.C14Sheet', 'WpModel.Props.C14Exact', 'WpModel.Props.C14Symm', 'WpModel.Props.C14Doc', 'WpModel.Props.C14Marks',
                'WpModel.Witness.C14')
     trusted_base = (
         'modelled, not verified: layout/page.py page_width_or_height, page_width/page_height (+ min_max.py), '
